@@ -343,6 +343,16 @@ int vh_cal(void)
 	res(ci >= 0, ci);
 	return 0;
     }
+    if (strcmp(op, "add_calibration_own") == 0) {	/* add_calibration_own c ci n: replace calibration ci under the name vnacal_get_name gives */
+	int ci0 = (int)tl(), n = (int)tl(), ci;
+	const char *name;
+	if (n < 0 || n >= NNEW || vnew[n] == NULL) return -1;
+	LIB(name = vnacal_get_name(cal[c], ci0));
+	if (name == NULL) return -1;
+	LIB(ci = vnacal_add_calibration(cal[c], name, vnew[n]));
+	res(ci >= 0, ci);
+	return 0;
+    }
     if (strcmp(op, "delete_calibration") == 0) {
 	int rc, ci = (int)tl();
 	LIB(rc = vnacal_delete_calibration(cal[c], ci));
